@@ -368,4 +368,202 @@ theorem iteratorRemove_at_end {h : Heap} {l : Lid} {pre : List Node} (hl : IsLis
   have hld : load h (linkAfter l pre) = none := isList_load (pre := pre) (post := []) (by simpa using hl)
   simp [iteratorRemove, hld]
 
+/-! ### list_contains, list_remove -/
+
+theorem Frame.mono {h h' : Heap} {l : Lid} {t t' : List Node} (hf : Frame h h' l t) (hs : ∀ x ∈ t, x ∈ t') :
+    Frame h h' l t' :=
+  ⟨hf.head, hf.tail, fun i hi => hf.next i (fun e => hi (hs i e))⟩
+
+theorem containsLoop_refines {h : Heap} {l : Lid} (node : Node) : ∀ (post pre : List Node) (fuel : Nat),
+    IsList h l (pre ++ post) → post.length < fuel →
+    containsLoop h node fuel ⟨linkAfter l pre, l⟩ post.head? =
+      .ok (⟨linkAfter l (pre ++ post.takeWhile (· != node)), l⟩, post.contains node)
+  | [], pre, fuel, _, hf => by
+    obtain ⟨f, rfl⟩ : ∃ f, fuel = f + 1 := ⟨fuel - 1, by simp at hf; omega⟩
+    simp [containsLoop]
+  | c :: r, pre, fuel, hl, hf => by
+    obtain ⟨f, rfl⟩ : ∃ f, fuel = f + 1 := ⟨fuel - 1, by simp at hf; omega⟩
+    simp only [List.head?_cons, containsLoop]
+    by_cases e : c = node
+    · subst e; simp
+    · rw [if_neg e, iteratorNext_refines hl]
+      have ih := containsLoop_refines node r (pre ++ [c]) f (by simpa using hl) (by simp at hf; omega)
+      simp only [ih]
+      have e' : node ≠ c := fun x => e x.symm
+      simp [e, e']
+
+/-- **list_contains** walks the whole list (`length + 1` iterations suffice), answers membership, and
+    leaves the iterator on the node found, or past the end -/
+theorem contains_refines {h : Heap} {l : Lid} {xs : List Node} (node : Node) {fuel : Nat}
+    (hl : IsList h l xs) (hf : xs.length < fuel) :
+    contains fuel h l node = .ok (⟨linkAfter l (xs.takeWhile (· != node)), l⟩, xs.contains node) := by
+  have := containsLoop_refines (h := h) (l := l) node xs [] fuel (by simpa using hl) hf
+  simpa [contains, iterate, isList_head hl] using this
+
+theorem split_at_mem {node : Node} : ∀ {xs : List Node}, node ∈ xs →
+    ∃ rest, xs = xs.takeWhile (· != node) ++ node :: rest ∧ xs.erase node = xs.takeWhile (· != node) ++ rest
+  | c :: r, hm => by
+    by_cases e : c = node
+    · subst e; exact ⟨r, by simp, by simp⟩
+    · have hm' : node ∈ r := by
+        rcases List.mem_cons.1 hm with e' | hm'
+        · exact absurd e'.symm e
+        · exact hm'
+      obtain ⟨rest, h1, h2⟩ := split_at_mem hm'
+      refine ⟨rest, ?_, ?_⟩
+      · have : (c != node) = true := by simpa using e
+        rw [List.takeWhile_cons, if_pos this, List.cons_append, ← h1]
+      · have : (c != node) = true := by simpa using e
+        rw [List.takeWhile_cons, if_pos this, List.cons_append, ← h2, List.erase_cons_tail (by simpa using e)]
+
+/-- **list_remove** removes the node if it is a member (fixing the tail when it was the last one,
+    clearing its link so that it is immediately reusable) and reports whether it was -/
+theorem remove_refines {h : Heap} {l : Lid} {xs : List Node} (node : Node) {fuel : Nat}
+    (hl : IsList h l xs) (hf : xs.length < fuel) :
+    ∃ h', remove fuel h l node = .ok (h', xs.contains node) ∧ IsList h' l (xs.erase node) ∧
+      (node ∈ xs → h'.next node = none) ∧ (node ∉ xs → h' = h) ∧ Frame h h' l xs := by
+  by_cases hm : node ∈ xs
+  · obtain ⟨rest, h1, h2⟩ := split_at_mem hm
+    have hl' : IsList h l (xs.takeWhile (· != node) ++ node :: rest) := by rw [← h1]; exact hl
+    obtain ⟨h', hr, hl2, hnx, hfr⟩ := iteratorRemove_refines hl'
+    refine ⟨h', ?_, by rw [h2]; exact hl2, fun _ => hnx, fun e => absurd hm e, ?_⟩
+    · simp [remove, contains_refines node hl hf, hm, hr]
+    · refine hfr.mono (fun x hx => ?_)
+      rcases List.mem_cons.1 hx with rfl | hx
+      · exact hm
+      · exact (List.takeWhile_sublist _).subset hx
+  · refine ⟨h, ?_, by rw [List.erase_of_not_mem hm]; exact hl, fun e => absurd e hm, fun _ => rfl, frame_refl _ _ _⟩
+    simp [remove, contains_refines node hl hf, hm]
+
+/-! ### list_insert_sorted -/
+
+/-- what `list_insert_sorted` does to an arbitrary (not necessarily sorted) sequence: its two fast
+    paths, then the scan -/
+def sortedIns (cmp : Node → Node → Int) (n : Node) (xs : List Node) : List Node :=
+  match xs.getLast? with
+  | none => [n]
+  | some t => if cmp n t ≥ 0 then xs ++ [n] else Librfn.Spec.ListSeq.insertSorted cmp n xs
+
+theorem sortedLoop_refines {h : Heap} {l : Lid} (cmp : Node → Node → Int) (n : Node) :
+    ∀ (post pre : List Node) (fuel : Nat), IsList h l (pre ++ post) → post.length < fuel →
+    (∃ x ∈ post, ¬ cmp n x ≥ 0) →
+    sortedLoop h cmp n fuel ⟨linkAfter l pre, l⟩ post.head? =
+      .ok ⟨linkAfter l (pre ++ post.takeWhile (fun x => cmp n x ≥ 0)), l⟩
+  | [], _, _, _, _, ⟨_, hx, _⟩ => absurd hx (by simp)
+  | c :: r, pre, fuel, hl, hf, hex => by
+    obtain ⟨f, rfl⟩ : ∃ f, fuel = f + 1 := ⟨fuel - 1, by simp at hf; omega⟩
+    simp only [List.head?_cons, sortedLoop]
+    by_cases e : cmp n c ≥ 0
+    · rw [if_pos e, iteratorNext_refines hl]
+      have hex' : ∃ x ∈ r, ¬ cmp n x ≥ 0 := by
+        obtain ⟨x, hx, hnx⟩ := hex
+        rcases List.mem_cons.1 hx with rfl | hx'
+        · exact absurd e hnx
+        · exact ⟨x, hx', hnx⟩
+      have ih := sortedLoop_refines cmp n r (pre ++ [c]) f (by simpa using hl) (by simp at hf; omega) hex'
+      simp only [ih]
+      simp [e]
+    · rw [if_neg e]; simp [e]
+
+/-- **list_insert_sorted** on any list: the scan terminates at the latest at the tail (the fast path
+    has just established `nodecmp(node, tail) < 0`), so the comparator never sees NULL and the assert
+    never fires; the node goes in front of the first node it is strictly smaller than -/
+theorem insertSorted_refines {h : Heap} {l : Lid} {xs : List Node} {n : Node} (cmp : Node → Node → Int)
+    {fuel : Nat} (hl : IsList h l xs) (hn : n ∉ xs) (hnn : h.next n = none) (hf : xs.length < fuel) :
+    ∃ h', insertSorted fuel h l n cmp = .ok h' ∧ IsList h' l (sortedIns cmp n xs) ∧ Frame h h' l (n :: xs) := by
+  have hh := isList_head hl
+  obtain ⟨hi, hrun, hli, hfi⟩ := insert_refines hl hn hnn
+  have hfi' : Frame h hi l (n :: xs) := hfi.mono (fun x hx => List.mem_cons_of_mem _ hx)
+  rcases nil_or_snoc xs with rfl | ⟨a, t, rfl⟩
+  · simp only [List.head?_nil] at hh
+    refine ⟨hi, ?_, by simpa [sortedIns] using hli, hfi'⟩
+    rw [← hrun]; simp [insertSorted, Model.ListHeap.insert, hnn, hh]
+  · obtain ⟨x, hx⟩ : ∃ x, h.head l = some x := by
+      rw [hh]; cases a <;> simp
+    have ht := isList_tail hl
+    by_cases e : cmp n t ≥ 0
+    · refine ⟨hi, ?_, by simpa [sortedIns, e] using hli, hfi'⟩
+      rw [← hrun]; simp [insertSorted, Model.ListHeap.insert, hnn, hx, ht, e]
+    · have hloop := sortedLoop_refines (h := h) (l := l) cmp n (a ++ [t]) [] fuel (by simpa using hl) hf
+        ⟨t, by simp, e⟩
+      have hsplit : a ++ [t] = (a ++ [t]).takeWhile (fun x => cmp n x ≥ 0) ++ (a ++ [t]).dropWhile (fun x => cmp n x ≥ 0) :=
+        (List.takeWhile_append_dropWhile).symm
+      have hl' : IsList h l ((a ++ [t]).takeWhile (fun x => cmp n x ≥ 0) ++ (a ++ [t]).dropWhile (fun x => cmp n x ≥ 0)) := by
+        rw [← hsplit]; exact hl
+      have hn' : n ∉ (a ++ [t]).takeWhile (fun x => cmp n x ≥ 0) ++ (a ++ [t]).dropWhile (fun x => cmp n x ≥ 0) := by
+        rw [← hsplit]; exact hn
+      obtain ⟨h1, h2, _⟩ := iteratorInsert_refines hl' hn'
+      have hloop' : sortedLoop h cmp n fuel (iterate h l).1 (iterate h l).2 =
+          .ok ⟨linkAfter l ((a ++ [t]).takeWhile (fun x => cmp n x ≥ 0)), l⟩ := by
+        simpa [iterate, hh] using hloop
+      refine ⟨iteratorInsert h ⟨linkAfter l ((a ++ [t]).takeWhile (fun x => cmp n x ≥ 0)), l⟩ n, ?_, ?_, ?_⟩
+      · simp [insertSorted, hnn, hx, ht, e, hloop']
+      · simpa [sortedIns, e, Librfn.Spec.ListSeq.insertSorted] using h1
+      · exact h2.mono (fun y hy => by
+          rcases List.mem_cons.1 hy with rfl | hy
+          · simp
+          · exact List.mem_cons_of_mem _ ((List.takeWhile_sublist _).subset hy))
+
+theorem dropWhile_all_greater {cmp : Node → Node → Int} (hp : TotalPreorder cmp) (n : Node) :
+    ∀ {xs : List Node}, Sorted cmp xs → ∀ y ∈ xs.dropWhile (fun x => cmp n x ≥ 0), ¬ cmp n y ≥ 0
+  | [], _, y, hy => by simp at hy
+  | c :: r, hs, y, hy => by
+    have hs' := List.pairwise_cons.1 hs
+    by_cases e : cmp n c ≥ 0
+    · rw [List.dropWhile_cons, if_pos (by simpa using e)] at hy
+      exact dropWhile_all_greater hp n hs'.2 y hy
+    · rw [List.dropWhile_cons, if_neg (by simpa using e)] at hy
+      rcases List.mem_cons.1 hy with rfl | hy
+      · exact e
+      · exact fun hny => e (hp.trans c y n (hs'.1 y hy) hny)
+
+/-- **sorted insertion is stable**: into a list sorted by any total preorder, `list_insert_sorted`
+    (fast paths included) puts the node after every node that is smaller **or equal** and before every
+    strictly greater one, and the list stays sorted -/
+theorem insert_sorted_stable {cmp : Node → Node → Int} (hp : TotalPreorder cmp) {xs : List Node} (n : Node)
+    (hs : Sorted cmp xs) :
+    sortedIns cmp n xs = Librfn.Spec.ListSeq.insertSorted cmp n xs ∧
+    Sorted cmp (Librfn.Spec.ListSeq.insertSorted cmp n xs) ∧
+    (∀ x ∈ xs.takeWhile (fun x => cmp n x ≥ 0), cmp n x ≥ 0) ∧
+    (∀ y ∈ xs.dropWhile (fun x => cmp n x ≥ 0), ¬ cmp n y ≥ 0) := by
+  have hB : ∀ x ∈ xs.takeWhile (fun x => cmp n x ≥ 0), cmp n x ≥ 0 := fun x hx => by
+    simpa using mem_takeWhile_imp hx
+  have hA := dropWhile_all_greater hp n hs
+  refine ⟨?_, ?_, hB, hA⟩
+  · unfold sortedIns
+    cases hg : xs.getLast? with
+    | none =>
+      have : xs = [] := List.getLast?_eq_none_iff.1 hg
+      subst this; simp [Librfn.Spec.ListSeq.insertSorted]
+    | some t =>
+      dsimp only
+      by_cases e : cmp n t ≥ 0
+      · rw [if_pos e]
+        obtain ⟨a, rfl⟩ := List.getLast?_eq_some_iff.1 hg
+        have hall : ∀ x ∈ a ++ [t], cmp n x ≥ 0 := by
+          intro x hx
+          rcases List.mem_append.1 hx with hx | hx
+          · exact hp.trans x t n ((List.pairwise_append.1 hs).2.2 x hx t (by simp)) e
+          · simp at hx; subst hx; exact e
+        have h1 : (a ++ [t]).takeWhile (fun x => cmp n x ≥ 0) = a ++ [t] :=
+          takeWhile_eq_self (fun x hx => by simpa using hall x hx)
+        have h2 : (a ++ [t]).dropWhile (fun x => cmp n x ≥ 0) = [] :=
+          dropWhile_eq_nil (fun x hx => by simpa using hall x hx)
+        simp only [Librfn.Spec.ListSeq.insertSorted, h1, h2]
+      · rw [if_neg e]
+  · have hsplit : xs = xs.takeWhile (fun x => cmp n x ≥ 0) ++ xs.dropWhile (fun x => cmp n x ≥ 0) :=
+      (List.takeWhile_append_dropWhile).symm
+    have hs' : Sorted cmp (xs.takeWhile (fun x => cmp n x ≥ 0) ++ xs.dropWhile (fun x => cmp n x ≥ 0)) := by
+      rw [← hsplit]; exact hs
+    obtain ⟨p1, p2, p3⟩ := List.pairwise_append.1 hs'
+    unfold Sorted Librfn.Spec.ListSeq.insertSorted
+    rw [List.pairwise_append]
+    refine ⟨p1, List.pairwise_cons.2 ⟨fun b hb => ?_, p2⟩, fun a ha b hb => ?_⟩
+    · rcases hp.total n b with h | h
+      · exact absurd h (hA b hb)
+      · exact h
+    · rcases List.mem_cons.1 hb with rfl | hb
+      · exact hB a ha
+      · exact p3 a ha b hb
+
 end Librfn.C09
